@@ -117,6 +117,7 @@ type victimOp struct {
 	val   *world.Blob
 	via   int // 0 disk.Put, 1 HTTP PUT, 2 ByteStream.Write
 	cuts  []int
+	send  []byte // bytes actually sent (a corrupted upload sends wrong bytes of the right length)
 }
 
 func crashBody(c *Ctx, s *sim.Sim, at int, tag string) (victimSteps int) {
@@ -213,13 +214,20 @@ func crashBody(c *Ctx, s *sim.Sim, at int, tag string) (victimSteps int) {
 				}
 			}
 			k.vals[b.Hash] = b.Data
-			op := victimOp{key: k, val: b, cuts: world.DrawCuts(r, len(b.Data))}
+			op := victimOp{key: k, val: b, cuts: world.DrawCuts(r, len(b.Data)), send: b.Data}
+			if kind == cache.CAS && r.Chance(1, 5) {
+				// an upload whose bytes do not match the digest: it must be rejected,
+				// and whatever it left on disk at a kill must never be served
+				bad := append([]byte(nil), b.Data...)
+				bad[r.Intn(len(bad))] ^= 0x20
+				op.send = bad
+			}
 			if kind == cache.CAS {
 				op.via = r.Intn(3)
 			} else if kind == cache.RAW {
 				op.via = r.Intn(2) // HTTP /ac/ with validation off is the RAW key space
 			}
-			op.descr = fmt.Sprintf("v%d: put %s %s <- %s via %d cuts=%v", v, kind, short(k.hash), b.ID, op.via, op.cuts)
+			op.descr = fmt.Sprintf("v%d: put %s %s <- %s via %d cuts=%v corrupt=%v", v, kind, short(k.hash), b.ID, op.via, op.cuts, &op.send[0] != &b.Data[0])
 			log("%s", op.descr)
 			victims[v] = append(victims[v], op)
 		}
@@ -268,7 +276,10 @@ func crashBody(c *Ctx, s *sim.Sim, at int, tag string) (victimSteps int) {
 				inflight[fl{op.key, op.val.Hash}] = true
 				<-ackMu
 				var res world.Res
-				rd := world.NewParkReader(s, op.val.Data, op.cuts, -1)
+				rd := world.NewParkReader(s, op.send, op.cuts, -1)
+				if &op.send[0] != &op.val.Data[0] {
+					s.Fault("upload.flip")
+				}
 				switch {
 				case op.via == 0:
 					res = cl.DiskPut(op.key.kind, op.key.hash, op.val.Size(), rd)
@@ -278,9 +289,12 @@ func crashBody(c *Ctx, s *sim.Sim, at int, tag string) (victimSteps int) {
 					res, _ = cl.HTTP(world.HTTPReq{Method: "PUT", Path: "/ac/" + op.key.hash, CLen: op.val.Size(), Body: rd, FailAt: -1, ParkAt: -1})
 				default:
 					name := world.WriteName("", "u", op.key.hash, op.val.Size(), false, "")
-					res, _ = cl.BSWrite(world.SplitMsgs(name, op.val.Data, op.cuts, true, true), nil)
+					res, _ = cl.BSWrite(world.SplitMsgs(name, op.send, op.cuts, true, true), nil)
 				}
 				ackMu <- struct{}{}
+				if res.OK && &op.send[0] != &op.val.Data[0] && !op.key.acked[op.val.Hash] {
+					s.Violate("C01.ack-match", "crash/victim", "upload with wrong bytes acknowledged")
+				}
 				if res.OK {
 					acks = append(acks, ack{op.key, op.val.Hash})
 				}
